@@ -649,7 +649,8 @@ class Fn:
             t = self.tu.vtype(a)
             widths.append((t.w, t.s))
             self.extra_outs.append((f'{fname}_arg_{k}_{i}', f'BitVec {t.w}', self.bind(f'{fname}_arg', self.ev(a, env))))
-        self.trace.append((fname, k, widths))
+        rq = n.get('type', {}).get('qualType')
+        self.trace.append((fname, k, widths, None if rq == 'void' else (f'{fname}_ret_{k}', self.tu.vtype(n))))
         dd = self.dead(env)
         path = env.get('$path', 'true')
         live = path if dd == 'false' else (f'(!{dd})' if path == 'true' else f'({path} && !{dd})')
@@ -733,7 +734,7 @@ class Fn:
                 dd = self.dead(env); path = env.get('$path', 'true')
                 live = path if dd == 'false' else (f'(!{dd})' if path == 'true' else f'({path} && !{dd})')
                 self.extra_outs.append((f'zeroed_{nm}_called_{self.nsite["zeroed_" + nm]}', 'Bool', live if live == 'true' else self.bind('zeroed', live)))
-                self.trace.append((f'zeroed_{nm}', self.nsite['zeroed_' + nm], []))
+                self.trace.append((f'zeroed_{nm}', self.nsite['zeroed_' + nm], [], None))
             for key in [k for k in env if k.startswith(nm + '->')]:
                 self.assign(env, key, lit(0, self.ftype[key].w))
             return env.get(nm, '()')
@@ -990,12 +991,14 @@ class Fn:
         out.append('  { ' + ', '.join(f'{f} := {v}' for f, _, v in fields) + ' }')
         if self.trace:
             out.append('')
-            out.append(f'/-- the external calls `{name}` executes, in order, with their arguments (zero- or sign-extended to 64 bits) -/')
-            out.append(f'def {name}.trace (o : {name}.Out) : List ExtCall :=')
+            out.append(f'/-- the external calls `{name}` executes, in order, with their arguments and the value each returned (zero- or sign-extended to 64 bits; 0 for a `void` call) -/')
+            rparams = ' '.join(f'({n_} : BitVec {w})' for n_, w in self.extra_params)
+            out.append(f'def {name}.trace (o : {name}.Out) {rparams} : List ExtCall :=')
             parts = []
-            for fn_, k_, widths in self.trace:
+            for fn_, k_, widths, ret_ in self.trace:
                 args = ', '.join((f'(BitVec.signExtend 64 o.{fn_}_arg_{k_}_{i})' if sg and w < 64 else f'(BitVec.setWidth 64 o.{fn_}_arg_{k_}_{i})') for i, (w, sg) in enumerate(widths))
-                parts.append(f'  (if o.{fn_}_called_{k_} then [⟨"{fn_}", [{args}]⟩] else [])')
+                rv = '0#64' if ret_ is None else (f'(BitVec.signExtend 64 {ret_[0]})' if ret_[1].s and ret_[1].w < 64 else f'(BitVec.setWidth 64 {ret_[0]})')
+                parts.append(f'  (if o.{fn_}_called_{k_} then [⟨"{fn_}", [{args}], {rv}⟩] else [])')
             out.append(' ++\n'.join(parts))
         return '\n'.join(out), sig
 
